@@ -26,6 +26,10 @@ type ExploreOpts struct {
 	// dynamically computed persistent set (Flanagan & Godefroid 2005), which
 	// removes most of the sleep-set-blocked prefixes. Implies Sleep.
 	DPOR bool
+	// ResetGlobals puts the instrumented packages back into their initial
+	// state before every execution (set by Explore when executions of the
+	// program turn out not to be reproducible).
+	ResetGlobals bool
 }
 
 // Found is a violating execution.
@@ -50,12 +54,30 @@ type ExploreStats struct {
 	SleepBlocked int // executions cut by the sleep sets (redundant prefixes)
 	Diverged     bool // executions were not reproducible (global state survives between executions): the search was abandoned
 	SelectSeen   bool // mode A was abandoned because the program executes a select statement
+	GlobalsReset bool // the exploration was redone with the package-level state reset before every execution
 }
 
 // Explore enumerates depth-first every schedule of prog whose number of
 // preemptions does not exceed opts.Bound. Every execution runs to completion
 // (or deadlock) on the real code.
 func Explore(prog Program, opts ExploreOpts) ExploreStats {
+	st := exploreElide(prog, opts)
+	if st.Diverged && !opts.ResetGlobals && CanResetGlobals() && len(st.Violations) == 0 {
+		// executions are not reproducible: package-level state survives from one
+		// execution into the next. Redo everything from a reset state each time
+		// (every execution then starts like the first use in a fresh process).
+		opts.ResetGlobals = true
+		st2 := exploreElide(prog, opts)
+		st2.GlobalsReset = true
+		st2.Executions += st.Executions
+		st2.Points += st.Points
+		ResetAllGlobals()
+		return st2
+	}
+	return st
+}
+
+func exploreElide(prog Program, opts ExploreOpts) ExploreStats {
 	st := exploreOnce(prog, opts)
 	if st.ElisionOff && opts.Elide {
 		// a package-level critical section wrote something: the elision is
@@ -84,8 +106,9 @@ func exploreOnce(prog Program, opts ExploreOpts) ExploreStats {
 	cfg := Config{Elide: opts.Elide, Race: opts.Race, FuelTotal: opts.FuelTotal}
 	type item struct {
 		prefix []int
+		want   []uint64 // what the parent execution saw at the choice points of the prefix (enabled sets)
 	}
-	stack := []item{{nil}}
+	stack := []item{{nil, nil}}
 	for len(stack) > 0 {
 		if opts.MaxExecs > 0 && stats.Executions >= opts.MaxExecs {
 			stats.Complete = false
@@ -97,8 +120,21 @@ func exploreOnce(prog Program, opts ExploreOpts) ExploreStats {
 		}
 		it := stack[len(stack)-1]
 		stack = stack[:len(stack)-1]
+		if opts.ResetGlobals {
+			ResetAllGlobals()
+		}
 		threads, judge := prog()
 		ex := RunOnce(cfg, it.prefix, threads)
+		sigs := make([]uint64, len(ex.Points))
+		for k := range ex.Points {
+			sigs[k] = pointSig(ex.Points[k])
+		}
+		// replaying a prefix must meet the same choice points as the execution it was derived from
+		for k := 0; k < len(it.want) && !ex.Diverged; k++ {
+			if k >= len(sigs) || sigs[k] != it.want[k] {
+				ex.Diverged = true
+			}
+		}
 		if ex.Diverged {
 			stats.Diverged = true
 			stats.Complete = false
@@ -142,7 +178,10 @@ func exploreOnce(prog Program, opts ExploreOpts) ExploreStats {
 		// push in reverse so that the shallowest deviation is explored last
 		// (depth-first order is irrelevant for coverage)
 		cost := pre
-		type child struct{ prefix []int }
+		type child struct {
+			prefix []int
+			want   []uint64
+		}
 		var kids []child
 		for i := len(it.prefix); i < len(ex.Points); i++ {
 			p := ex.Points[i]
@@ -155,13 +194,13 @@ func exploreOnce(prog Program, opts ExploreOpts) ExploreStats {
 					np := make([]int, i+1)
 					copy(np, ex.Choices[:i])
 					np[i] = alt
-					kids = append(kids, child{np})
+					kids = append(kids, child{np, sigs[:i+1]})
 				}
 			}
 			// choices after the prefix are all 0 => no preemption added to cost
 		}
 		for k := len(kids) - 1; k >= 0; k-- {
-			stack = append(stack, item{kids[k].prefix})
+			stack = append(stack, item{kids[k].prefix, kids[k].want})
 		}
 	}
 	return stats
@@ -196,6 +235,9 @@ func exploreSleep(prog Program, opts ExploreOpts) ExploreStats {
 		}
 		it := stack[len(stack)-1]
 		stack = stack[:len(stack)-1]
+		if opts.ResetGlobals {
+			ResetAllGlobals()
+		}
 		threads, judge := prog()
 		cfg := Config{Elide: opts.Elide, Race: opts.Race, FuelTotal: opts.FuelTotal, Sleep: true, Installs: it.installs}
 		ex := RunOnce(cfg, it.prefix, threads)
@@ -307,6 +349,9 @@ func exploreDPOR(prog Program, opts ExploreOpts) ExploreStats {
 			if len(n.done) > 1 {
 				installs[k] = n.done[:len(n.done)-1]
 			}
+		}
+		if opts.ResetGlobals {
+			ResetAllGlobals()
 		}
 		threads, judge := prog()
 		cfg := Config{Elide: opts.Elide, Race: opts.Race, FuelTotal: opts.FuelTotal, Sleep: true, Installs: installs}
@@ -517,4 +562,16 @@ func fmtSet(m map[int]bool) string {
 		}
 	}
 	return s
+}
+
+// pointSig fingerprints what the scheduler saw at one choice point.
+func pointSig(p Point) uint64 {
+	h := uint64(1469598103934665603)
+	for _, e := range p.Enabled {
+		h = (h ^ uint64(uint32(e))) * 1099511628211
+	}
+	if p.CurEnabled {
+		h ^= 0x9e3779b97f4a7c15
+	}
+	return h
 }
